@@ -1,0 +1,44 @@
+//! Verification hooks: thin `pub` wrappers around crate-private items so that an external
+//! harness crate can drive them. Compiled only with `--cfg zcash_librustzcash_verif`; adds no
+//! behaviour.
+
+use zcash_protocol::{memo::MemoBytes, value::Zatoshis};
+
+use crate::parse::{self, Param};
+
+/// `parse::indexed_name(input)` with the nom error flattened:
+/// `Some((rest, name, index))` on success.
+pub fn indexed_name(input: &str) -> Option<(&str, &str, Option<&str>)> {
+    parse::indexed_name(input)
+        .ok()
+        .map(|(rest, (name, idx))| (rest, name, idx))
+}
+
+/// `parse::qchars(input)`: `Some((rest, matched))`.
+pub fn qchars(input: &str) -> Option<(&str, &str)> {
+    parse::qchars(input).ok()
+}
+
+/// A parameter described without the private `Param` type: kind 1 = amount, 2 = memo,
+/// 3 = label, 4 = message, anything else = other (`name`, `value`).
+pub struct ParamDesc<'a> {
+    pub kind: u8,
+    pub name: &'a str,
+    pub value: &'a str,
+}
+
+fn param_of(d: &ParamDesc<'_>) -> Param {
+    match d.kind {
+        1 => Param::Amount(Zatoshis::ZERO),
+        2 => Param::Memo(Box::new(MemoBytes::empty())),
+        3 => Param::Label(d.value.to_owned()),
+        4 => Param::Message(d.value.to_owned()),
+        _ => Param::Other(d.name.to_owned(), d.value.to_owned()),
+    }
+}
+
+/// `parse::has_duplicate_param(prev, new)` over described parameters.
+pub fn has_duplicate_param(prev: &[ParamDesc<'_>], new: &ParamDesc<'_>) -> bool {
+    let v: Vec<Param> = prev.iter().map(param_of).collect();
+    parse::has_duplicate_param(&v, &param_of(new))
+}
